@@ -57,6 +57,7 @@ MODES_LISTS = {
 def modes_cfg(ctxname, st_kw=None):
     d = dict(MODES_LISTS[ctxname])
     d['inline_open'] = ['$', '\\(']
+    d['pairs'] = [['$', '$'], ['\\(', '\\)'], ['$$', '$$'], ['\\[', '\\]']]
     st = pstate.make(ctx=ctxname, **(st_kw or {}))
     d['top_math'] = bool(st['in_math'])
     d['top_delim'] = st['mdelim']
@@ -66,8 +67,9 @@ def modes_cfg(ctxname, st_kw=None):
 def modes_cfg_tla(ctxname, st_kw=None):
     d = modes_cfg(ctxname, st_kw)
     seq = lambda xs: '<<' + ', '.join(common.tla_seq(x) for x in xs) + '>>'
-    return ('[textmacros |-> %s, mathmacros |-> %s, mathenvs |-> %s, inline_open |-> %s, top_math |-> %s, top_delim |-> %s]'
+    return ('[textmacros |-> %s, mathmacros |-> %s, mathenvs |-> %s, inline_open |-> %s, pairs |-> %s, top_math |-> %s, top_delim |-> %s]'
             % (seq(d['textmacros']), seq(d['mathmacros']), seq(d['mathenvs']), seq(d['inline_open']),
+               '<<' + ', '.join(seq(p) for p in d['pairs']) + '>>',
                'TRUE' if d['top_math'] else 'FALSE', common.tla_seq(d['top_delim'])))
 
 
@@ -75,6 +77,7 @@ def modes_cfg_json(ctxname, st_kw=None):
     d = modes_cfg(ctxname, st_kw)
     return dict(textmacros=[common.codes(x) for x in d['textmacros']], mathmacros=[common.codes(x) for x in d['mathmacros']],
                 mathenvs=[common.codes(x) for x in d['mathenvs']], inline_open=[common.codes(x) for x in d['inline_open']],
+                pairs=[[common.codes(a), common.codes(b)] for a, b in d['pairs']],
                 top_math=d['top_math'], top_delim=common.codes(d['top_delim']))
 
 
